@@ -404,6 +404,11 @@ mod gen {
                         ny += 1;
                         co.as_mut().expect("yield after drop").yield_(ny).await;
                     }
+                    "YA" => {
+                        let items: Vec<u32> = (1..=g as u32).map(|k| ny + k).collect();
+                        ny += g as u32;
+                        co.as_mut().expect("yield after drop").yield_all(items).await;
+                    }
                     "SW" => yield_once().await,
                     "W" => GateFut(gates.clone(), g).await,
                     "DH" => {
@@ -490,6 +495,11 @@ mod gen {
                                 "Y" => {
                                     ny += 1;
                                     co.as_mut().expect("yield after drop").yield_(ny).await;
+                                }
+                                "YA" => {
+                                    let items: Vec<u32> = (1..=g as u32).map(|k| ny + k).collect();
+                                    ny += g as u32;
+                                    co.as_mut().expect("yield after drop").yield_all(items).await;
                                 }
                                 "SW" => yield_once().await,
                                 "W" => GateFut(g2.clone(), g).await,
@@ -810,7 +820,8 @@ mod cup {
                         let q: Vec<String> = u["query"].as_array().map(|a| a.iter().map(|s| s.as_str().unwrap().to_string()).collect()).unwrap_or_default();
                         let base = format!("{}://{}{}{}", u["scheme"].as_str().unwrap(), u["auth"].as_str().unwrap(), u["path"].as_str().unwrap(),
                                            if q.is_empty() { String::new() } else { format!("?{}", q.join("&")) });
-                        for (latest, hist) in [(7u64, vec![]), (42u64, vec![7u64])] {
+                        // key ids are u64: small ones, and ones with the top bit set
+                        for (latest, hist) in [(7u64, vec![]), (42u64, vec![7u64]), (1u64 << 63, vec![]), (u64::MAX, vec![42u64]), ((1u64 << 63) - 1, vec![])] {
                             let handler = StandardCupv2Handler::new(&public_keys(latest, &hist));
                             let mut i = Intermediate { uri: base.clone(), headers: vec![], body: RequestWrapper::default() };
                             let meta = match handler.decorate_request(&mut i) {
@@ -842,7 +853,7 @@ mod cup {
                         // single-bit flips of every field of genuine exchanges
                         use rand::{Rng, SeedableRng};
                         let mut rng = rand::rngs::StdRng::seed_from_u64(seed.wrapping_mul(7919).wrapping_add(v["i"].as_u64().unwrap_or(0)));
-                        let kid: u64 = [1u64, 2, 3][rng.gen_range(0..3)];
+                        let kid: u64 = [1u64, 2, 3, (1u64 << 63) + 5, u64::MAX - 2][rng.gen_range(0..5)];
                         let handler = StandardCupv2Handler::new(&public_keys(kid, &[if kid == 3 { 1 } else { kid + 1 }]));
                         let req: Vec<u8> = (0..rng.gen_range(0..40)).map(|_| rng.gen()).collect();
                         let rb: Vec<u8> = (0..rng.gen_range(0..40)).map(|_| rng.gen()).collect();
@@ -1244,6 +1255,23 @@ mod resp {
             }
             out.n += 1;
             let mut v: Value = serde_json::from_str(&subst(&line)).expect("vector");
+            if v["base"] == "pfx" {
+                // a variant of the anti-XSSI prefix in front of a valid document, or alone
+                let mut bytes: Vec<u8> = v["bytes"].as_array().unwrap().iter().map(|b| b.as_u64().unwrap() as u8).collect();
+                if !v["alone"].as_bool().unwrap() {
+                    bytes.extend_from_slice(br#"{"response":{"protocol":"3.0","app":[{"appid":"a","status":"ok"}]}}"#);
+                }
+                match guarded(|| parse_json_response(&bytes)) {
+                    Err(p) => out.bad("panic in the parser", &v, json!(p)),
+                    Ok(r) => {
+                        if r.is_ok() != v["valid"].as_bool().unwrap() {
+                            out.bad("a variant of the anti-XSSI prefix is handled wrongly (accepted iff it is exactly the prefix or absent)", &v,
+                                    json!(String::from_utf8_lossy(&bytes)));
+                        }
+                    }
+                }
+                continue;
+            }
             fix_empty(&mut v["doc"], "", false);
             let text = serde_json::to_string(&v["doc"]).unwrap();
             if docs.len() < 400 {
@@ -1330,8 +1358,15 @@ mod resp {
                 println!("SWEEP-PANIC {} {}", what, p);
             }
         };
-        for (i, d) in docs.iter().enumerate() {
-            let full = i < 40;
+        let mut all: Vec<Vec<u8>> = docs.clone();
+        for d in docs.iter().take(20) {
+            let mut p = b")]}'\n".to_vec();
+            p.extend_from_slice(d);
+            all.push(p);
+        }
+        let nplain = docs.len();
+        for (i, d) in all.iter().enumerate() {
+            let full = i < 40 || i >= nplain;
             // every truncation point
             for k in 0..d.len() {
                 if full || k % 7 == 0 {
